@@ -141,12 +141,13 @@ class Judge(object):
         self.ok = True
 
     def fail(self, mode, what, text, observed, expected):
+        called = mode
         if mode.startswith("scaled-units") and what in self.primary:
             mode = self.primary[what]
         elif mode in ("units-mode", "constants-mode"):
             self.primary.setdefault(what, mode)
         key = "C19|%s|%s|%s" % (self.fn, mode, what)
-        self.res.violation(key, text, dict(self.case, k=key), observed, expected)
+        self.res.violation(key, text, dict(self.case, k=key, called_in=called), observed, expected)
         self.res.outcomes["%s|%s|%s" % (self.fn, mode, what.upper())] += 1
         self.ok = False
 
@@ -751,18 +752,22 @@ def run_chunk(chunk, tier):
         lo, hi, _ = WATER[rel]
         grid = _grid100(lo, hi, b["water_T_step_K"], b["beyond_range_K"])
         Ps = b["permittivity_P_bar"] if rel == "water_permittivity" else [None]
+        f = _water_fn(rel)
         for P in Ps:
             prev = None
-            for T in grid[i0: min(len(grid), i1 + 1)]:  # one point of overlap for the shape relation
+            for T in grid[i0:i1]:
                 v0 = _state_W(res, rel, T, P)
                 if prev is not None:
                     _shape(res, rel, prev[0], prev[1], T, v0, P)
                 prev = (T, v0)
-        # the overlap point is evaluated by two chunks but is one state: count it once
-        if i1 < len(grid):
-            res.states -= len(Ps)
-            res.nontrivial -= len(Ps)
-            res.dedup_hits += len(Ps)
+            if i1 < len(grid):  # the first point of the next chunk, plain value only, closes the shape relation across the cut
+                Tn = grid[i1]
+                vn, _, _ = _call(res, lambda: f(Tn, *(() if P is None else (P,)), warn=False))
+                try:
+                    vn = None if _is_exc(vn) else float(vn)
+                except Exception:
+                    vn = None
+                _shape(res, rel, prev[0], prev[1], Tn, vn, P)
         res.sample(dict(layer="W", rel=rel, T_from=grid[i0], T_to=grid[min(len(grid), i1) - 1], pressures=Ps), limit=1)
     elif kind == "Wb":
         rel = chunk[1]
@@ -865,7 +870,8 @@ def replay(case):
     else:
         raise ValueError(case)
     want = case.get("k")
-    vs = [v for v in res.violations if v["key"] == want] or res.violations
+    vs = ([v for v in res.violations if v["key"] == want and v["case"].get("called_in") == case.get("called_in")]
+          or [v for v in res.violations if v["key"] == want] or res.violations)
     if vs:
         v = vs[0]
         return dict(key=v["key"], what=v["what"], observed=v["observed"], expected=v["expected"])
